@@ -56,13 +56,21 @@ def _extract_one(src, flags, extra_tag=""):
         if r.returncode != 0 or not os.path.exists(tmp):
             raise AnalysisBroken("hwast failed on %s: rc=%s %s" % (src, r.returncode, r.stderr[-2000:]))
         os.replace(tmp, out)
-        # drop stale cache entries of the same unit
+        # drop cache entries of the same unit that have not been used for an hour (concurrent runs on scratch copies
+        # share this cache: never delete a file another run may be about to load)
+        now = time.time()
         for old in glob.glob(os.path.join(outdir, os.path.basename(src) + ".*.json")):
             if old != out:
                 try:
-                    os.unlink(old)
+                    if now - os.stat(old).st_atime > 3600 and now - os.stat(old).st_mtime > 3600:
+                        os.unlink(old)
                 except OSError:
                     pass
+    else:
+        try:
+            os.utime(out, None)
+        except OSError:
+            pass
     return out
 
 
